@@ -11,6 +11,9 @@
 package main
 
 import (
+	"sort"
+	"sync/atomic"
+	"sync"
 	"bytes"
 	"encoding/hex"
 	"flag"
@@ -126,6 +129,38 @@ func (a *acc) flush() {
 	}
 }
 
+// inFlight holds the inputs being decoded right now (one slot per accumulator); the watchdog
+// started in main reports them if no decode completes for a minute: a decoder that does not
+// return cannot be interrupted in-process, so the check ends there with that violation.
+var (
+	inFlight   sync.Map // *acc -> string (hex input + source)
+	decodeTick atomic.Int64
+)
+
+func decodeWatchdog(r *vlib.Run) {
+	go func() {
+		last, idle := int64(-1), 0
+		for {
+			time.Sleep(5 * time.Second)
+			cur := decodeTick.Load()
+			busy := false
+			inFlight.Range(func(_, _ any) bool { busy = true; return false })
+			if cur != last || !busy {
+				last, idle = cur, 0
+				continue
+			}
+			if idle++; idle < 12 {
+				continue
+			}
+			var stuck []string
+			inFlight.Range(func(_, v any) bool { stuck = append(stuck, v.(string)); return true })
+			sort.Strings(stuck)
+			r.Violation("C15:decode-hang", fmt.Sprintf("Decode has not returned for 60 s on input %s (and %d more in flight)", stuck[0], len(stuck)-1), map[string]any{"inputs_in_flight": stuck})
+			r.Finish(vlib.Coverage{Evaluations: cur, DistinctNontrivial: cur, States: cur, Transitions: cur, Rule: "stopped by the hang watchdog: a decode did not return", Exhaustive: false})
+		}
+	}()
+}
+
 func check(a *acc, in []byte, source string) {
 	r := a.r
 	if declaredTooLong(in) {
@@ -133,7 +168,10 @@ func check(a *acc, in []byte, source string) {
 		return
 	}
 	for _, env := range []bool{false, true} {
+		inFlight.Store(a, fmt.Sprintf("%x (%s, env unpickler=%v)", in, source, env))
 		verdict, class := decodeOne(in, env)
+		inFlight.Delete(a)
+		decodeTick.Add(1)
 		a.decodes++
 		if env {
 			class = "env/" + class
@@ -284,6 +322,9 @@ func main() {
 		os.Exit(0)
 	}
 	r := vlib.Start("C15")
+	if !r.IsWorker() {
+		decodeWatchdog(r)
+	}
 	if r.IsWorker() {
 		recordFaults(r) // worker processes only serve the record-fault part
 		return
